@@ -1,10 +1,12 @@
 /-
   Props.C01 — the keyspace as a sequential typed map: read-your-writes laws of the model's SET / GET /
-  DEL / INCR / STRLEN handlers over arbitrary states, and witnesses of the inputs on which the full
-  statement fails (each one a class of Known.lean, replayed on the implementation by the check).
+  DEL / INCR / STRLEN / GETEX PERSIST / GETRANGE / MGET / SETRANGE handlers over arbitrary states, and witnesses
+  of the inputs on which the full statement fails (each one a class of Known.lean, replayed on the
+  implementation by the check).
 -/
 import SugarModel.Lemmas.Kv
 import SugarModel.Lemmas.ReadOnly
+import SugarModel.Lemmas.RespWF
 namespace Sugar.Props.C01
 open Sugar
 
@@ -88,6 +90,139 @@ theorem arity_error_no_change (c : Ctx) (s : State) :
     (handleRename c [b "rename", b "a"]).run c s = (s, .done (.err wrongArgs)) := by
   refine ⟨?_, ?_, ?_, ?_⟩ <;> simp [handleGet, handleSet, handleIncr, handleRename]
 
+/-! ### GETEX PERSIST, GETRANGE / SUBSTR, MGET, SETRANGE — repaired in /repo by `fix:` commits; the statements
+    below hold on every state (before the repairs each had a witness of the defect in this file's last section) -/
+
+/-- **GETEX k PERSIST removes the time to live.** For every state, every live key holding a printable value,
+    every spelling of the option (`opt` upper-cases to PERSIST) and with or without a trailing argument (it is
+    ignored): the reply is the value, the key afterwards has **no deadline**, its value is unchanged, and no
+    other key of the database is touched. -/
+theorem getex_persist_clears_deadline (c : Ctx) (s : State) (k opt : Bytes) (rest : List Bytes) (e : Entry) (t : Bytes)
+    (h : s.lookup c.db k = some e) (hlive : e.expired c.now = false) (hv : e.val.fmtV = some t)
+    (ha : isAscii opt = true) (ho : toUpper opt = b "PERSIST") (hr : rest.length ≤ 1) :
+    ((handleGetex c (b "getex" :: k :: opt :: rest)).run c s).2 = .done (.ok (simpleStr t)) ∧
+    ((handleGetex c (b "getex" :: k :: opt :: rest)).run c s).1.lookup c.db k = some ⟨e.val, none⟩ ∧
+    (∀ k2, k ≠ k2 → ((handleGetex c (b "getex" :: k :: opt :: rest)).run c s).1.lookup c.db k2 = s.lookup c.db k2) := by
+  obtain ⟨s', hrun, h1, h2, _⟩ := handleGetex_persist_run c s k opt rest e t h hlive hv ha ho hr
+  rw [hrun]
+  exact ⟨rfl, h1, h2⟩
+
+/-- the common spellings satisfy the hypotheses of `getex_persist_clears_deadline` -/
+example (c : Ctx) (s : State) (k : Bytes) (e : Entry) (t : Bytes)
+    (h : s.lookup c.db k = some e) (hlive : e.expired c.now = false) (hv : e.val.fmtV = some t) :
+    ((handleGetex c [b "getex", k, b "persist"]).run c s).1.lookup c.db k = some ⟨e.val, none⟩ :=
+  (getex_persist_clears_deadline c s k (b "persist") [] e t h hlive hv persist_tokens.1 persist_tokens.2.1 (by simp)).2.1
+
+/-- non-vacuity (the former witness of the defect): SET k d PX 1000; GETEX k PERSIST leaves no deadline -/
+example :
+    let c : Ctx := { db := 0, now := 1000 }
+    let s : State := { dbs := [(0, ⟨[(b "k", ⟨.str (b "d"), some 2000⟩)], [b "k"]⟩)], mem := 57 }
+    (handleGetex c [b "getex", b "k", b "persist"]).run c s =
+      ({ dbs := [(0, ⟨[(b "k", ⟨.str (b "d"), none⟩)], [b "k"]⟩)], mem := 57 }, .done (.ok (b "+d\r\n"))) := by decide
+
+/-- **GETRANGE / SUBSTR return the reference substring for every start and end.** For every state, every live key
+    holding a string `t` and every pair of integer arguments: whenever the reference range (negative indices
+    count from the end, start clamped to the first byte, end to the last) is non-empty, the reply is the bulk
+    string of exactly those bytes, and nothing changes. -/
+theorem getrange_reference_substring (c : Ctx) (s : State) (name k st en t : Bytes) (ex : Option Int) (start end_ : Int)
+    (h : s.lookup c.db k = some ⟨.str t, ex⟩) (hlive : (⟨.str t, ex⟩ : Entry).expired c.now = false)
+    (hs : asInt? st = some (some start)) (he : asInt? en = some (some end_))
+    (hne : (refRange t.length start end_).1 ≤ (refRange t.length start end_).2) :
+    (handleSubStr c [name, k, st, en]).run c s =
+      (s, .done (.ok (bulkStr ((t.drop (refRange t.length start end_).1.toNat).take
+        ((refRange t.length start end_).2 - (refRange t.length start end_).1 + 1).toNat)))) := by
+  simp [handleSubStr, keysExist_single, h, hs, he, getValues_live c s k _ h hlive, Prog.ofOutcome,
+    subStrPure_ref t start end_ hne]
+
+/-- **GETRANGE / SUBSTR always answer** — no start / end makes the handler panic or fail on a stored string: the
+    reply is a bulk string (a reversed range over non-ASCII bytes is outside the exactly-modelled domain) and the
+    state is unchanged. -/
+theorem getrange_always_answers (c : Ctx) (s : State) (name k st en t : Bytes) (ex : Option Int) (start end_ : Int)
+    (h : s.lookup c.db k = some ⟨.str t, ex⟩) (hlive : (⟨.str t, ex⟩ : Entry).expired c.now = false)
+    (hs : asInt? st = some (some start)) (he : asInt? en = some (some end_)) :
+    (∃ x, (handleSubStr c [name, k, st, en]).run c s = (s, .done (.ok (bulkStr x)))) ∨
+    (∃ w, (handleSubStr c [name, k, st, en]).run c s = (s, .unmod w)) := by
+  rcases subStrPure_total t start end_ with ⟨x, hx⟩ | ⟨w, hw⟩
+  · exact Or.inl ⟨x, by simp [handleSubStr, keysExist_single, h, hs, he, getValues_live c s k _ h hlive, Prog.ofOutcome, hx]⟩
+  · exact Or.inr ⟨w, by simp [handleSubStr, keysExist_single, h, hs, he, getValues_live c s k _ h hlive, Prog.ofOutcome, hw]⟩
+
+/-- non-vacuity (the former witnesses of the panic): start beyond the string answers the empty string, a negative
+    start reaching before the first byte reads from the first byte -/
+example :
+    let c : Ctx := { db := 0, now := 1000 }
+    let s : State := { dbs := [(0, ⟨[(b "k", ⟨.str (b "abc"), none⟩)], []⟩)], mem := 60 }
+    ((handleSubStr c [b "getrange", b "k", b "5", b "10"]).run c s).2 = .done (.ok (b "$0\r\n\r\n")) ∧
+    ((handleSubStr c [b "getrange", b "k", b "-7", b "100"]).run c s).2 = .done (.ok (b "$3\r\nabc\r\n")) ∧
+    ((handleSubStr c [b "substr", b "k", b "-2", b "-1"]).run c s).2 = .done (.ok (b "$2\r\nbc\r\n")) ∧
+    ((handleSubStr c [b "substr", b "k", b "-100", b "-50"]).run c s).2 = .done (.ok (b "$1\r\na\r\n")) := by decide
+
+/-- **MGET answers one element per argument: the stored value for every key that reads as present, nil for the
+    others** — on every state and every argument list (values whose `%v` text is address-dependent excluded). -/
+theorem mget_returns_stored_values (c : Ctx) (s : State) (keys : List Bytes) (hne : keys ≠ [])
+    (hp : ∀ k ∈ keys, (mgetText (readVal c s k)).isSome) :
+    ((handleMGet c (b "mget" :: keys)).run c s).2 =
+      .done (.ok (arrHdr keys.length ++ (keys.map fun k => mgetElem (readVal c s k)).flatten)) := by
+  have hl : ¬ (keys.length + 1 < 2) := by
+    cases keys with
+    | nil => exact absurd rfl hne
+    | cons a r => simp
+  have hb : mgetBody ((getValues c s keys).2) = some ((keys.map fun k => mgetElem (readVal c s k)).flatten) := by
+    rw [getValues_readVal, mgetBody_elems]
+    · simp [List.map_map, Function.comp_def]
+    · intro v hv
+      obtain ⟨k, hk, rfl⟩ := List.mem_map.mp hv
+      exact hp k hk
+  simp [handleMGet, hl, hb]
+
+/-- the element of a key holding a string is the bulk string of exactly its bytes — the empty string included … -/
+theorem mget_elem_string (t : Bytes) : mgetElem (.str t) = bulkStr t := rfl
+
+theorem bulkStr_ne_nilBulk (x : Bytes) : bulkStr x ≠ nilBulk := by
+  intro h
+  have h1 := parseOne_bulkStr 0 x []
+  rw [h, parseOne_nilBulk 0 []] at h1
+  cases h1
+
+/-- … and an element is the nil bulk **only** for a key that reads as absent -/
+theorem mget_elem_nil_iff (v : Val) : mgetElem v = nilBulk ↔ v = .nil := by
+  constructor
+  · intro h
+    cases v with
+    | nil => rfl
+    | _ => exact absurd h (bulkStr_ne_nilBulk _)
+  · intro h; subst h; rfl
+
+/-- non-vacuity (the former witness of the defect): SET k1 ""; MGET k1 k2 answers the empty string and one nil -/
+example :
+    let c : Ctx := { db := 0, now := 1000 }
+    let s : State := { dbs := [(0, ⟨[(b "k1", ⟨.str [], none⟩)], []⟩)], mem := 57 }
+    ((handleMGet c [b "mget", b "k1", b "k2"]).run c s).2 = .done (.ok (b "*2\r\n$0\r\n\r\n$-1\r\n")) := by decide
+
+/-- **SETRANGE on an absent key creates it.** For every state, absent key, integer offset and value (no memory
+    limit): the reply is the length of the value, the key afterwards holds exactly that string without a deadline
+    (so a following GET reads it back), and no other key of the database is touched. -/
+theorem setrange_absent_creates (c : Ctx) (s : State) (k off v : Bytes) (offset : Int) (hm : c.cfg.maxMemory = 0)
+    (h : s.lookup c.db k = none) (ho : asInt? off = some (some offset)) :
+    ((handleSetRange c [b "setrange", k, off, v]).run c s).2 = .done (.ok (intReply v.length)) ∧
+    ((handleSetRange c [b "setrange", k, off, v]).run c s).1.lookup c.db k = some ⟨.str v, none⟩ ∧
+    (∀ k2, k ≠ k2 → ((handleSetRange c [b "setrange", k, off, v]).run c s).1.lookup c.db k2 = s.lookup c.db k2) ∧
+    ((handleGet c [b "get", k]).run c ((handleSetRange c [b "setrange", k, off, v]).run c s).1).2 = .done (.ok (simpleStr v)) := by
+  obtain ⟨hs1, hs2, hs3⟩ := setValues_single c s k (.str v) hm
+  have hrun : (handleSetRange c [b "setrange", k, off, v]).run c s =
+      ((setValues c s [(k, .str v)]).1, .done (.ok (intReply v.length))) := by
+    simp [handleSetRange, keysExist_single, h, ho, setOrErr, hs1]
+  rw [hrun]
+  simp only [h, Option.bind_none] at hs2
+  refine ⟨rfl, hs2, hs3, ?_⟩
+  have hexp : (⟨Val.str v, none⟩ : Entry).expired c.now = false := by simp [Entry.expired]
+  simp [handleGet, keysExist_single, hs2, getValues_live _ _ _ _ hs2 hexp, plusV, Val.fmtV]
+
+/-- non-vacuity (the former witness of the defect): SETRANGE k1 1 ZZ on an empty server stores ZZ -/
+example :
+    let c : Ctx := { db := 0, now := 1000 }
+    ((handleSetRange c [b "setrange", b "k1", b "1", b "ZZ"]).run c { dbs := [], mem := 0 }).1.lookup 0 (b "k1")
+      = some ⟨.str (b "ZZ"), none⟩ := by decide
+
 /-! ### where the full statement fails (model witnesses; each is a class of Known.lean) -/
 
 /-- numeric-looking text is rewritten: SET k 007; GET k answers 7 -/
@@ -109,12 +244,6 @@ example :
     let c : Ctx := { db := 0, now := 1000 }
     let s : State := { dbs := [(0, ⟨[(b "k", ⟨.str (b "v"), none⟩)], []⟩)], mem := 57 }
     ((handleRename c [b "rename", b "k", b "k"]).run c s).1.lookup 0 (b "k") = some ⟨.str (b "v"), none⟩ := by decide
-
-/-- GETRANGE with start beyond the string panics -/
-theorem getrange_panics_witness :
-    let c : Ctx := { db := 0, now := 1000 }
-    let s : State := { dbs := [(0, ⟨[(b "k", ⟨.str (b "abc"), none⟩)], []⟩)], mem := 60 }
-    ((handleSubStr c [b "getrange", b "k", b "5", b "10"]).run c s).2 = .panic "slice bounds out of range" := by decide
 
 /-- a stale key is still "there": SET k v NX is refused on a key whose deadline has passed -/
 theorem stale_key_refuses_nx_witness :
